@@ -1,7 +1,7 @@
 (* C17 — Morphometrics obey their defining recurrences and path counts. *)
 From Coq Require Import List ZArith QArith Bool.
 Import ListNotations.
-From Navis Require Import model.Forest model.Dist model.Prune model.Strahler model.Flow
+From Navis Require Import proofs.Metric model.Forest model.Dist model.Prune model.Strahler model.Flow
   proofs.ForestWF proofs.StrahlerProofs proofs.FlowProofs.
 Open Scope Z_scope.
 
@@ -59,11 +59,23 @@ Proof. exact fork_rule_spec. Qed.
 Print Assumptions C17_forks_take_largest_child.
 
 (* segregation index, for any entropy function vanishing at 0 and 1: pure compartments give entropy 0 (index 1).
-   [0,1]-boundedness (Jensen) and tortuosity >= 1 (triangle inequality over R) are NOT proved: partial,
-   decided numerically on implementation outputs *)
+   [0,1]-boundedness (Jensen's inequality for the binary entropy over R) is NOT proved: partial, decided numerically on
+   implementation outputs *)
 Theorem C17_segregation_separated_partial : forall (H : Q -> Q) comps,
   (H 0 == 0)%Q -> (H 1 == 0)%Q -> (forall x y, x == y -> H x == H y)%Q ->
   (forall c, In c comps -> 0 <= fst c /\ 0 <= snd c /\ (fst c = 0 \/ snd c = 0)) ->
   (seg_entropy H comps == 0)%Q.
 Proof. exact seg_separated. Qed.
 Print Assumptions C17_segregation_separated_partial.
+
+(* tortuosity = path length / end-to-end distance is never below 1, and is 1 on straight segments - for ANY distance function
+   obeying the triangle inequality (square roots are irrational, so the statement is parametric in the metric rather than about R;
+   the Euclidean distance of the implementation is one instance) *)
+Theorem C17_tortuosity_ge_one : forall (A : Type) (d : A -> A -> Q), triangle d -> zero_diag d -> forall p x, (0 < d x (last p x))%Q ->
+  (1 <= path_len d x p / d x (last p x))%Q.
+Proof. intros A. exact (@tortuosity_ge_one A). Qed.
+Print Assumptions C17_tortuosity_ge_one.
+Theorem C17_tortuosity_straight : forall (A : Type) (d : A -> A -> Q) p x, (0 < d x (last p x))%Q -> (path_len d x p == d x (last p x))%Q ->
+  (path_len d x p / d x (last p x) == 1)%Q.
+Proof. intros A. exact (@tortuosity_straight A). Qed.
+Print Assumptions C17_tortuosity_straight.
